@@ -664,7 +664,9 @@ def run(ctx: RunCtx) -> None:
             ctx.violation(PROPERTY, "d-exact", f"{path},not-bytes", f"fetch_url returned {type(result).__name__}")
         elif bytes(result) != case.decoded:
             rel = _relation(bytes(result), case.decoded, case.encoded)
-            range_acts = [a for a in origin.acts if a.startswith("range:") and not a.endswith(":connect-stall")]  # (a stall is a delay, not an answer)
+            # only answers that say something about the object count here: 206 / 200 / 416 responses (a failed connection, a
+            # stall, a redirect or an error status tells the client nothing about the object's size)
+            range_acts = [a for a in origin.acts if a.startswith(("range:206-", "range:200-", "range:416"))]
             size_lie = any(a.startswith("head:") and a.endswith("cl-smaller") for a in origin.acts)
             if range_acts and range_acts[0] == "range:206-lying-total":  # the bytes=0-0 probe announced a wrong total
                 size_lie = True
